@@ -755,6 +755,11 @@ def fault_case(v, shape, lazy, N, max_faults):
         if f:
             if v.bool("bare"):  # an exception without arguments (`raise KeyError`), decided only where a fault fires
                 raise Injected()
+            if not tag.startswith("p") and v.bool("as_schema_error"):
+                # a pandera SchemaError built by hand inside a CHECK function (no reason code, no check): reported like any other
+                # failing check.  (Raised by a parser it escapes as KeyError(None) on the unchanged tree — parser exceptions propagate
+                # by design and this shape is not asserted.)
+                raise pa.errors.SchemaError(None, None, f"injected@{j}:{tag}")
             raise Injected(f"injected@{j}:{tag}")
 
     def vec(tag):
@@ -830,7 +835,7 @@ def fault_case(v, shape, lazy, N, max_faults):
     if n_injected and not (shape.startswith("parser") and any(c.startswith("p") for c in calls[-1:])):
         # a raising user check is reported as a failed check
         asserts.append(("fault/reported_as_failed_check", v.holds(o["kind"] in ("SchemaError", "SchemaErrors"))))
-        if o["kind"] == "SchemaErrors":
+        if o["kind"] == "SchemaErrors" and not _flag_true(v, v.bool("as_schema_error")):
             asserts.append(("fault/reason_check_error", v.holds("CHECK_ERROR" in o["reasons"])))
     if n_injected and shape.startswith("parser"):
         asserts.append(("fault/parser_error_propagates", v.holds(o["kind"] != "accept")))
@@ -1348,6 +1353,10 @@ def subsample_case(v, shape, N, which):
     if shape == "series":
         obj = v.series("a_", "float", N, nullable=False, sname="a", labels="l")
         schema = pa.SeriesSchema(float, Check.ge(lo), name="a", unique=v.bool("unique"))
+    elif shape == "series_nulls":  # nullability is a row-level constraint like any other: only the selected rows count
+        obj = v.series("a_", "float", N, sname="a", labels="l")
+        nullable_s = v.bool("nullable")
+        schema = pa.SeriesSchema(float, Check.ge(lo), name="a", nullable=nullable_s)
     elif shape == "model":  # the class-based entry point forwards head/tail/sample/random_state to the same machinery
         obj = v.frame([("a", "float", False), ("b", "int")], N, labels="l")
         uq = v.bool("unique")
@@ -1370,7 +1379,7 @@ def subsample_case(v, shape, N, which):
         obj = H.with_sample_stub(obj, v.vals, N)
     snap = H.snapshot(obj)
     o = H.outcome(lambda: schema.validate(obj, head=h, tail=t, sample=n, random_state=rs))
-    xa, _ = v.cells("a_", "float", N, False)
+    xa, na = v.cells("a_", "float", N, shape == "series_nulls")
     picks = [z3.Bool(f"sample!{rs}!{i}") for i in range(N)]
     sel = []
     for i in range(N):
@@ -1383,7 +1392,9 @@ def subsample_case(v, shape, N, which):
             s.append(picks[i])
         sel.append(zor(s) if which else z3.BoolVal(True))
     ok_rows = [z3.Implies(sel[i], xa[i] >= v.z(lo)) for i in range(N)]
-    uniq = v.z(schema.unique if shape == "series" else (uq if shape == "model" else schema.columns["a"].unique))
+    if shape == "series_nulls":
+        ok_rows = [z3.Implies(sel[i], z3.If(na[i], v.z(nullable_s), xa[i] >= v.z(lo))) for i in range(N)]
+    uniq = v.z(schema.unique if shape in ("series", "series_nulls") else (uq if shape == "model" else schema.columns["a"].unique))
     nodup = zand(z3.Not(z3.And(sel[i], sel[j], xa[i] == xa[j])) for i in range(N) for j in range(i))
     wide = zand(z3.Implies(sel[i], z3.Int(f"b_{i}") <= 5) for i in range(N)) if shape == "frame_wide" else z3.BoolVal(True)
     spec = z3.And(zand(ok_rows), z3.Implies(uniq, nodup), wide)
@@ -1670,6 +1681,7 @@ T_OPS = {
     "select([a,b])": (lambda S: S.select_columns(["a", "b"]), ["a", "b"], {}),
     "select([b,a])": (lambda S: S.select_columns(["b", "a"]), ["a", "b"], {}),
     "add(c)": (lambda S: S.add_columns({"c": pa.Column(int)}), ["a", "b"], {}),
+    "add(c<-named)": (lambda S: S.add_columns({"c": pa.Column(int, name="q"), "d": S.columns["b"]}), ["a", "b"], {}),  # columns that already carry a name
     "remove(b)": (lambda S: S.remove_columns(["b"]), ["a"], {}),
     "set_index(b)": (lambda S: S.set_index(["b"]), ["a"], {}),
     # a request to clear a property (None is a legal value of these keywords) and requests for falsy values
@@ -1739,6 +1751,10 @@ def transform_case(v, group, name):
             asserts.append((f"transform/untouched_schema/{attr}", v.holds(_attr_eq(v, getattr(S, attr, None), getattr(S2, attr, None)))))
         asserts.append(("transform/new_object", v.holds(S2 is not S)))
         asserts.append(("transform/receiver_unchanged", v.holds(fingerprint(S) == fp0)))
+        if name.startswith("select(["):  # like df[columns]: the result lists the columns in the requested order
+            asserts.append(("transform/selected_order", v.holds(list(S2.columns) == name[len("select(["):-2].split(","))))
+        if name.startswith("add("):  # every column of the result is named by the key it is stored under
+            asserts.append(("transform/columns_named_by_key", v.holds(all(c.name == k for k, c in S2.columns.items()))))
         if name.startswith("set_index(["):
             want_levels = name[len("set_index(["):-2].split(",")
             asserts.append(("transform/index_level_order", v.holds([i.name for i in S2.index.indexes] == want_levels)))
